@@ -18,10 +18,28 @@ WITNESSED = {
 }
 
 
+def _emptied_by_gated_removal(tm: TransformerModel, e: Effect, need: set[str]) -> str | None:
+    """Structural witness: the hook acts only when its updated node has lost its whole body (`not updated_node.body`) -- which can only
+    be the work of a removal made by another hook of the same transformer -- and every removal effect of the transformer is gated."""
+    ps = e.method.positional_params()
+    if len(ps) < 3 or not e.method.name.startswith("leave_"):
+        return None
+    upd = ps[2]
+    fa = tm.flow(e.method)
+    must = fa.must_at(e.node)
+    if (False, f"{upd}.body") not in must:
+        return None
+    removals = [x for x in tm.effects() if x.kind == "return-change" and x.method.qname != e.method.qname and ("Remove" in x.text or "REMOVE" in x.text)]
+    if not removals or not all(x.roles & need for x in removals):
+        return None
+    return (f"acts only when `{upd}.body` is empty, i.e. after its child was removed by another hook of this transformer; all "
+            f"{len(removals)} removal effects of the class are gated")
+
+
 def witnessed(tm: TransformerModel, e: Effect, need: set[str]) -> str | None:
     w = WITNESSED.get((e.cls, e.method.name))
     if not w:
-        return None
+        return _emptied_by_gated_removal(tm, e, need)
     key, reason = w
     roles = tm.collection_roles(key)
     if not (roles & need):
